@@ -1378,7 +1378,7 @@ def u_recompute(W, sk):
 def sk_validation(tier):
     out = []
     for cls in ("flow", "inflow", "stock"):
-        for case in ("none", "same", "other_letters", "twin_time", "twin_extra", "time_not_first", "lifetime_other_letters", "lifetime_twin", "lifetime_class"):
+        for case in ("none", "same", "other_letters", "twin_time", "twin_extra", "fewer_dims", "more_dims", "time_not_first", "lifetime_other_letters", "lifetime_twin", "lifetime_fewer_dims", "lifetime_more_dims", "lifetime_class"):
             if cls == "flow" and case.startswith("lifetime"):
                 continue
             out.append({"cls": cls, "case": case})
@@ -1431,7 +1431,7 @@ def u_validation(W, sk):
         return
     cls = {"flow": st.SimpleFlowDrivenStock, "inflow": st.InflowDrivenDSM, "stock": st.StockDrivenDSM}[sk["cls"]]
     kw = dict(dims=dims, name="s", time_letter="t")
-    arr_dims = {"same": [T, R], "other_letters": [T, Q], "twin_time": [T2, R], "twin_extra": [T, R2]}.get(case)
+    arr_dims = {"same": [T, R], "other_letters": [T, Q], "twin_time": [T2, R], "twin_extra": [T, R2], "fewer_dims": [T], "more_dims": [T, R, Q]}.get(case)
     given = None
     if arr_dims is not None:
         given = W.array("given", arr_dims, cls=StockArray)
@@ -1447,6 +1447,10 @@ def u_validation(W, sk):
                 lm_dims = [T, Q]
             elif case == "lifetime_twin":
                 lm_dims = [T, R2]
+            elif case == "lifetime_fewer_dims":
+                lm_dims = [T]
+            elif case == "lifetime_more_dims":
+                lm_dims = [T, R, Q]
             if case == "time_not_first":
                 kw["lifetime_model"] = lt.NormalLifetime
             elif W.symbolic:
@@ -1457,7 +1461,7 @@ def u_validation(W, sk):
                 kw["lifetime_model"] = lt.NormalLifetime(dims=mk_set(W, lm_dims), time_letter="t")
     snaps = SL.snapshot(W, [given]) if given is not None else []
     out = W.call(lambda: cls(**kw))
-    bad = case in ("other_letters", "twin_time", "twin_extra", "time_not_first", "lifetime_other_letters", "lifetime_twin")
+    bad = case in ("other_letters", "twin_time", "twin_extra", "fewer_dims", "more_dims", "time_not_first", "lifetime_other_letters", "lifetime_twin", "lifetime_fewer_dims", "lifetime_more_dims")
     if case in ("twin_time", "twin_extra", "lifetime_twin") and W.symbolic:
         # the symbolic twin has arbitrary length and arbitrary items: on the paths where its items are exactly the
         # original's it *is* the same dimension (case 'same' covers that); a twin proper differs somewhere
